@@ -45,8 +45,9 @@ inductive DStep
   | clientWant (add remove : List String)
   | clientFlush
   | clientRecv (nack : Option String)
-  /-- `gen`: the names of the resources the answer / push carries (they replace the record of a wildcard type). -/
-  | serverRecv (n : String) (gen : List String)
+  /-- `gen`: the names of the resources the answer / push carries (they replace the record of a wildcard type);
+      `deliver = false`: the server decides to answer but nothing goes out (nothing to send, or the send is lost). -/
+  | serverRecv (n : String) (gen : List String) (deliver : Bool)
   | serverPush (n : String) (ok : Bool) (gen : List String)
 
 def removeAll (l r : List String) : List String := l.filter (fun x => !r.contains x)
@@ -68,15 +69,17 @@ def dstep (t : Ty) (y : DSys) : DStep → DSys
     | [] => y
     | n :: rest =>
       { y with s2c := rest, c2s := y.c2s ++ [y.outMsg n nack], pendSub := [], pendUnsub := [] }
-  | .serverRecv n gen =>
+  | .serverRecv n gen deliver =>
     match y.c2s with
     | [] => y
     | m :: rest =>
       match shouldRespondDelta y.srv (m.toReq t) with
       | .crash => y
       | .out true s' =>
-        { y with srv := sendDelta s' t n (sentNames t gen) true, c2s := rest, s2c := y.s2c ++ [n],
-                 applied := applyChange y.applied m.sub m.unsub }
+        if deliver then
+          { y with srv := sendDelta s' t n (sentNames t gen) true, c2s := rest, s2c := y.s2c ++ [n],
+                   applied := applyChange y.applied m.sub m.unsub }
+        else { y with srv := s', c2s := rest, applied := applyChange y.applied m.sub m.unsub }
       | .out false s' => { y with srv := s', c2s := rest, applied := applyChange y.applied m.sub m.unsub }
   | .serverPush n ok gen =>
     match y.srv t with
